@@ -165,7 +165,7 @@ type toy struct {
 	id     int
 	units  int
 	script []outcome
-	pos    int
+	pos    *int // persistent script position (the script belongs to the environment, not to the process)
 	wrap   bool // wrap ctx.Err() with %w
 	// onCancel: what a toy does when it finds the context already cancelled at entry / between units
 	nilOnCancel bool // return (nil, ctx.Err()) instead of (state, ctx.Err())
@@ -219,9 +219,9 @@ func (t *toy) Migrate(ctx context.Context, d db.KeyValueStore, _ *networks.Netwo
 		return t.state(), t.ctxErr(ctx)
 	}
 	o := outFinish
-	if t.pos < len(t.script) {
-		o = t.script[t.pos]
-		t.pos++
+	if t.pos != nil && *t.pos < len(t.script) {
+		o = t.script[*t.pos]
+		*t.pos++
 	}
 	t.executed[o]++
 	switch o {
